@@ -232,7 +232,7 @@ func runOutFile(seed int64, dir, outPath string, quick bool) {
 					}
 				} else {
 					path := filepath.Join(dir, "of-persist.zap")
-					os.Remove(path)
+					staleDest(path, k+3) // no-fault run (k = total) and every fourth offset: a longer stale file is in the way
 					var err error
 					withFileLimit(k, func() { err = sb.Persist(path) })
 					ev.Res = classify(err)
@@ -303,7 +303,7 @@ func runOutFile(seed int64, dir, outPath string, quick bool) {
 		emit(EvOutProg{Ev: "outprog", ID: id, Kind: "merge", Cap: caps[mi], Prog: prog, Total: total, Polls: polls})
 		run := func(ev EvOut, ch chan struct{}, rep segment.StatsReporter, limit int) {
 			nplans++
-			os.Remove(path)
+			staleDest(path, nplans)
 			var err error
 			do := func() { _, _, err = plugin.Merge(segs, drops, path, ch, rep) }
 			if limit >= 0 {
